@@ -314,7 +314,10 @@ def generate(seed: int, mode: str, tier: str = "quick") -> dict:
         if how == "rng":
             emit(w, "RNG", how=r.choice(["reseed", "draw"]), x=r.randrange(1, 9999))
         elif how == "clock":
-            emit(w, "CLOCK", how=r.choice(["jump", "skew", "stall"]), x=r.choice([-3600.0, 7.0, 86400.0]), n=1)
+            if r.random() < 0.4:
+                emit(w, "CLOCK", how="native_jump", x=r.choice([6.0, 30.0, 3600.0]), n=r.choice([2, 10, 60, 400]))
+            else:
+                emit(w, "CLOCK", how=r.choice(["jump", "skew", "stall"]), x=r.choice([-3600.0, 7.0, 86400.0]), n=1)
         elif how == "thread":
             emit(w, "THREAD", on=True)
         elif how == "blas":
@@ -408,9 +411,20 @@ def run_batch(a, prop, n):
 
     jobs = [(batch.batch_seed(a.seed, 500_000 + i), prop, a.tier) for i in range(n)]
     recs, fatal = [], []
+    lost = []
     with ThreadPoolExecutor(max_workers=8) as tp:
-        for rec in tp.map(run_job, jobs):
-            (fatal if rec.get("fatal") else recs).append(rec)
+        for job, rec in zip(jobs, tp.map(run_job, jobs)):
+            if rec.get("fatal"):
+                lost.append((job, rec))
+            else:
+                recs.append(rec)
+    for job, first in lost:   # once more, alone, before it counts as a harness error
+        rec = run_job(job)
+        if rec.get("fatal"):
+            rec["first_attempt"] = first.get("fatal")
+            fatal.append(rec)
+        else:
+            recs.append(rec)
     return recs, fatal
 
 
